@@ -432,10 +432,8 @@ func c05(r *ev.Run, replay string) {
 	}{{"action", corpus.ExtActions(false)}, {"oxm", corpus.AllMatchFields()}} {
 		seen := map[string]bool{}
 		for _, base := range cat.base {
-			key := base.K
-			if cat.cat == "oxm" {
-				key = oxmName(base) + fmt.Sprint(base.U["HasMask"])
-			}
+			// one base per structure (kind, optional members present, nested kinds), values aside
+			key := structureKey(base)
 			if seen[key] || r.Expired() {
 				continue
 			}
@@ -482,7 +480,12 @@ func c05(r *ev.Run, replay string) {
 		}
 	}, mrun)
 	var nvar int64
-	for _, base := range append(c04Bases(), c05ControllerBases()...) {
+	selC, selS := baseSelector{max: 2048}, baseSelector{max: 2048}
+	corpus.Controller(false, func() bool { return false }, func(string, bool) {}, selC.offer)
+	corpus.Switch(false, func() bool { return false }, func(string, bool) {}, selS.offer)
+	vbases := append(append(append(c04Bases(), c05ControllerBases()...), selC.bases...), selS.bases...)
+	r.Set("variation_bases", len(vbases))
+	for _, base := range vbases {
 		if r.Expired() {
 			r.Incomplete("V1 single-field value alphabets on messages")
 			break
